@@ -197,6 +197,34 @@ func (a *adapter) deliverBlock(h int) string {
 	return path
 }
 
+// raceInsert: block h is handed to the engine and held inside InsertBlock (the manager has already merged the early
+// confirms); deputy d's confirm for h is delivered and handled; then the engine is let go.  If the manager does not
+// hand the block to the engine at all, the two messages have simply been delivered one after the other.
+func (a *adapter) raceInsert(h, d int) string {
+	n := a.n
+	b := a.wd.blocks[h]
+	n.cw.hold(b.Hash())
+	defer n.cw.release()
+	from := n.r.mark()
+	n.peer.push(p2p.BlocksMsg, enc(types.Blocks{node.Copy(b, nil)}))
+	n.peer.push(p2p.BlocksMsg, enc(types.Blocks{node.Copy(a.wd.blocks[0], nil)})) // marker, see deliverBlock
+	loopDone := func(evs []ev) bool {
+		return count(evs, from, func(e ev) bool { return e.kind == "StableBlock" && e.caller == fromRcvLoop }) >= 2
+	}
+	held := false
+	n.r.wait(fmt.Sprintf("block %d to enter InsertBlock", h), func(evs []ev) bool {
+		held = count(evs, from, func(e ev) bool { return e.kind == "InsertBlock.begin" && e.hash == b.Hash() }) >= 1
+		return held || loopDone(evs)
+	})
+	path := a.deliverConfirm(h, d)
+	if !held {
+		path = "noinsert+" + path
+	}
+	n.cw.release()
+	n.r.wait("the receive loop to finish the held block and the marker behind it", loopDone)
+	return path
+}
+
 // deliverConfirm queues one ConfirmMsg and a fence; what the handler decided is read off the events.
 func (a *adapter) deliverConfirm(h, d int) string {
 	n := a.n
@@ -285,6 +313,9 @@ func (a *adapter) Apply(s engine.Step) (engine.Fields, error) {
 		default:
 			return nil, fmt.Errorf("unknown message %s", m.String())
 		}
+		n.fence()
+	case "RaceInsert":
+		fl["path"] = a.raceInsert(s.Act.Args[0].I(), s.Act.Args[1].I())
 		n.fence()
 	case "Duplicate":
 		// the network duplicates a message that is still in flight: nothing reaches the node yet
